@@ -994,6 +994,7 @@ fn stress_case_inproc(cx: &mut Ctx, c: &Value) {
         "stress/SecureMemoryPool" => stress_sp(nthr, iters, seed, hold, c["cache"].as_u64().unwrap_or(4) as usize, false),
         "stress/global_secure_pools" => stress_sp(nthr, iters, seed, hold, 0, true),
         "stress/MemoryPool" => stress_mp(nthr, iters, seed, hold),
+        "stress/global_memory_pools" => stress_gp(nthr, iters, seed, hold),
         _ => vec![],
     };
     for d in fails {
@@ -1003,7 +1004,20 @@ fn stress_case_inproc(cx: &mut Ctx, c: &Value) {
 }
 
 fn classify_stress(cell: &str, d: &str) -> Option<&'static str> {
-    if cell == "stress/five_level::ThreadLocalPool" && d.contains("handed to thread") { return Some("threadlocal_pool_offsets_not_unique"); }
+    // A free-running stress of the secure pool can land in the ABA / use-after-free window of its Treiber
+    // stack (findings secure_stack_*): the symptoms are a crash, a hang, a cycle, a foreign or duplicated
+    // chunk, or chunks missing from the stack.  Counter mismatches are never excused, and the controlled
+    // SecureMemoryPool cell decides chunk conservation deterministically without this class.
+    if (cell == "stress/SecureMemoryPool" || cell == "stress/global_secure_pools")
+        && (d == "died" || d == "timeout" || d.contains("cycle") || d.contains("corrupt node") || d.contains("handed to thread")
+            || d.contains("overwritten") || d.contains("shared stack longer") || (d.contains("lost") && !d.contains(": -"))) {
+        return Some("secure_stack_aba");
+    }
+    // both symptoms of one MemOffset naming two live blocks: seen when the second is handed out, or when
+    // the first owner frees "its" offset after the table entry was overwritten
+    if cell == "stress/five_level::ThreadLocalPool" && (d.contains("handed to thread") || d.contains("but the table says owner")) {
+        return Some("threadlocal_pool_offsets_not_unique");
+    }
     None
 }
 
@@ -1196,7 +1210,11 @@ fn stress_sp(nthr: usize, iters: usize, seed: u64, hold: usize, cache: usize, gl
     let frees = Arc::new(AtomicU64::new(0));
     let cached = Arc::new(AtomicUsize::new(0));
     let (p2, c2, d2, t2, e2, ca2, fr2, cc2) = (pool.clone(), clash.clone(), detail.clone(), table.clone(), ever.clone(), calls.clone(), frees.clone(), cached.clone());
+    // all threads are alive from the first allocation to the last cache inspection: the thread_local crate
+    // hands the slot (and cache) of an exited thread to the next new thread, which would count a cache twice
+    let barrier = Arc::new(std::sync::Barrier::new(nthr));
     let r = stress_threads(nthr, move |t| {
+        barrier.wait();
         let mut rng = Rng::new(seed * 1000 + t as u64);
         let mut held: Vec<SecurePooledPtr> = vec![];
         let give = |p: SecurePooledPtr| {
@@ -1223,6 +1241,7 @@ fn stress_sp(nthr: usize, iters: usize, seed: u64, hold: usize, cache: usize, gl
         }
         for p in held { give(p); }
         cc2.fetch_add(p2.verif_local_cache_len(), Ordering::SeqCst);
+        barrier.wait();
     });
     let mut f = vec![];
     if let Err(e) = r { f.push(e); }
@@ -1298,6 +1317,55 @@ fn stress_mp(nthr: usize, iters: usize, seed: u64, hold: usize) -> Vec<String> {
     if st.chunks > 8 { f.push(format!("{} chunks pooled, max_chunks is 8", st.chunks)); }
     if st.allocated != st.chunks as u64 * 64 {
         f.push(format!("stats.allocated = {} bytes but {} chunks of 64 bytes are alive (all pooled) at quiescence", st.allocated, st.chunks));
+    }
+    f
+}
+
+/// The process-wide size-class pools of pool.rs, reached through PooledBuffer.
+fn stress_gp(nthr: usize, iters: usize, seed: u64, hold: usize) -> Vec<String> {
+    use zipora::memory::PooledBuffer;
+    let before = zipora::memory::pool::get_global_pool_stats();
+    let clash = Arc::new(AtomicBool::new(false));
+    let detail = Arc::new(Mutex::new(String::new()));
+    let table: Arc<Mutex<HashMap<usize, usize>>> = Arc::new(Mutex::new(HashMap::new()));
+    let calls = Arc::new(AtomicU64::new(0));
+    let (c2, d2, t2, ca2) = (clash.clone(), detail.clone(), table.clone(), calls.clone());
+    let iters = iters / 4; // chunks are up to 1 MiB
+    let r = stress_threads(nthr, move |t| {
+        let mut rng = Rng::new(seed * 1000 + t as u64);
+        let mut held: Vec<PooledBuffer> = vec![];
+        let give = |b: PooledBuffer| {
+            if b.as_slice().iter().any(|&x| x != t as u8 + 1) { c2.store(true, Ordering::SeqCst); *d2.lock().unwrap() = format!("buffer contents of thread {} overwritten while it owned the buffer", t); }
+            t2.lock().unwrap().remove(&(b.as_slice().as_ptr() as usize));
+            drop(b);
+        };
+        for _ in 0..iters {
+            if held.len() < hold && (held.is_empty() || rng.chance(1, 2)) {
+                let size = *rng.pick(&[64usize, 1024, 1025, 4000, 65536, 65537]);
+                if let Ok(mut b) = PooledBuffer::new(size) {
+                    ca2.fetch_add(1, Ordering::Relaxed);
+                    if let Some(o) = t2.lock().unwrap().insert(b.as_slice().as_ptr() as usize, t) { c2.store(true, Ordering::SeqCst); *d2.lock().unwrap() = format!("chunk handed to thread {} while thread {} owns it", t, o); }
+                    for x in b.as_mut_slice().iter_mut() { *x = t as u8 + 1; }
+                    held.push(b);
+                }
+            } else if !held.is_empty() {
+                let b = held.swap_remove(rng.below(held.len() as u64) as usize);
+                give(b);
+            }
+        }
+        for b in held { give(b); }
+    });
+    let mut f = vec![];
+    if let Err(e) = r { f.push(e); }
+    if clash.load(Ordering::SeqCst) { f.push(detail.lock().unwrap().clone()); }
+    let st = zipora::memory::pool::get_global_pool_stats();
+    let n = calls.load(Ordering::SeqCst);
+    if st.alloc_count - before.alloc_count != n || st.dealloc_count - before.dealloc_count != n {
+        f.push(format!("alloc_count grew by {} and dealloc_count by {} after {} allocations all freed", st.alloc_count - before.alloc_count, st.dealloc_count - before.dealloc_count, n));
+    }
+    if st.pool_hits + st.pool_misses != st.alloc_count { f.push(format!("pool_hits {} + pool_misses {} != alloc_count {}", st.pool_hits, st.pool_misses, st.alloc_count)); }
+    if st.allocated != st.available {
+        f.push(format!("stats.allocated = {} bytes but the pooled chunks amount to {} bytes and nothing is live at quiescence", st.allocated, st.available));
     }
     f
 }
@@ -1381,7 +1449,7 @@ pub fn run(args: &Args) {
     // 4. stress
     let iters = if args.thorough { 200_000 } else { 20_000 };
     let cells = ["stress/LockFreeMemoryPool", "stress/five_level::LockFreePool", "stress/five_level::MutexBasedPool", "stress/five_level::ThreadLocalPool",
-                 "stress/FixedCapacityMemoryPool", "stress/SecureMemoryPool", "stress/global_secure_pools", "stress/MemoryPool"];
+                 "stress/FixedCapacityMemoryPool", "stress/SecureMemoryPool", "stress/global_secure_pools", "stress/MemoryPool", "stress/global_memory_pools"];
     for (i, cell) in cells.iter().enumerate() {
         let reps = if args.thorough { 6 } else { 2 };
         for rep in 0..reps {
